@@ -3892,10 +3892,16 @@ impl<'source> Parser<'source> {
     //// Lexer getters
 
     fn consume_token(&mut self) -> Option<Token> {
+        #[cfg(koto_verif)]
+        let verif_mark = verif::mark(&self.current_token);
         if let Some(next) = self.lexer.next() {
             self.current_token = next;
+            #[cfg(koto_verif)]
+            verif::consumed(&verif_mark, &self.current_token);
             Some(self.current_token.token)
         } else {
+            #[cfg(koto_verif)]
+            verif::log(&verif_mark, "consume_token", "", "None");
             None
         }
     }
@@ -3905,22 +3911,42 @@ impl<'source> Parser<'source> {
     }
 
     fn peek_token_n(&mut self, n: usize) -> Option<Token> {
+        #[cfg(koto_verif)]
+        if let Some(verif_mark) = verif::mark(&self.current_token) {
+            // evaluated on a clone of the lexer so that the token queue is left untouched
+            let peeked = self.lexer.clone().peek(n).map(|peeked| peeked.token);
+            verif::log_peek_n(&verif_mark, n, peeked);
+        }
         self.lexer.peek(n).map(|peeked| peeked.token)
     }
 
     fn current_line(&self) -> u32 {
+        #[cfg(koto_verif)]
+        verif::log_getter(&self.current_token, "current_line", self.current_token.span.end.line as usize);
         self.current_token.span.end.line
     }
 
     fn current_indent(&self) -> usize {
+        #[cfg(koto_verif)]
+        verif::log_getter(&self.current_token, "current_indent", self.current_token.indent);
         self.current_token.indent
     }
 
     fn peek_span(&mut self) -> Option<Span> {
+        #[cfg(koto_verif)]
+        if let Some(verif_mark) = verif::mark(&self.current_token) {
+            // evaluated on a clone of the lexer so that the token queue is left untouched
+            let peeked = self.lexer.clone().peek(0).map(|peeked| peeked.span);
+            verif::log_span(&verif_mark, "peek_span", peeked);
+        }
         self.lexer.peek(0).map(|peeked| peeked.span)
     }
 
     fn current_span(&self) -> Span {
+        #[cfg(koto_verif)]
+        if let Some(verif_mark) = verif::mark(&self.current_token) {
+            verif::log_span(&verif_mark, "current_span", Some(self.current_token.span));
+        }
         self.current_token.span
     }
 
@@ -3969,6 +3995,8 @@ impl<'source> Parser<'source> {
     fn peek_token_with_context(&mut self, context: &ExpressionContext) -> Option<PeekInfo> {
         use Token::*;
 
+        #[cfg(koto_verif)]
+        let verif_mark = verif::mark(&self.current_token);
         let mut peek_count = 0;
         let mut same_line = true;
         let start_indent = self.current_indent();
@@ -4004,6 +4032,12 @@ impl<'source> Parser<'source> {
                         None
                     };
 
+                    #[cfg(koto_verif)]
+                    verif::log_peek_with_context(
+                        &verif_mark,
+                        context,
+                        result.as_ref().map(|peek| (&peek.info, peek.peek_count)),
+                    );
                     return result;
                 }
             }
@@ -4011,6 +4045,8 @@ impl<'source> Parser<'source> {
             peek_count += 1;
         }
 
+        #[cfg(koto_verif)]
+        verif::log_peek_with_context(&verif_mark, context, None);
         None
     }
 
@@ -4028,6 +4064,8 @@ impl<'source> Parser<'source> {
         &mut self,
         context: &ExpressionContext,
     ) -> Option<(Token, ExpressionContext)> {
+        #[cfg(koto_verif)]
+        let verif_mark = verif::mark(&self.current_token);
         let start_line = self.current_line();
         let start_indent = self.current_indent();
 
@@ -4048,10 +4086,19 @@ impl<'source> Parser<'source> {
                     *context
                 };
 
+                #[cfg(koto_verif)]
+                verif::log_consume_with_context(
+                    &verif_mark,
+                    "consume_token_with_context",
+                    context,
+                    Some((&self.current_token, &new_context)),
+                );
                 return Some((token, new_context));
             }
         }
 
+        #[cfg(koto_verif)]
+        verif::log_consume_with_context(&verif_mark, "consume_token_with_context", context, None);
         None
     }
 
@@ -4062,6 +4109,8 @@ impl<'source> Parser<'source> {
         &mut self,
         context: &ExpressionContext,
     ) -> Option<ExpressionContext> {
+        #[cfg(koto_verif)]
+        let verif_mark = verif::mark(&self.current_token);
         let start_line = self.current_line();
         let start_indent = self.current_indent();
 
@@ -4084,68 +4133,128 @@ impl<'source> Parser<'source> {
                     *context
                 };
 
+                #[cfg(koto_verif)]
+                verif::log_consume_with_context(
+                    &verif_mark,
+                    "consume_until_token_with_context",
+                    context,
+                    Some((&self.current_token, &new_context)),
+                );
                 return Some(new_context);
             }
         }
 
+        #[cfg(koto_verif)]
+        verif::log_consume_with_context(
+            &verif_mark,
+            "consume_until_token_with_context",
+            context,
+            None,
+        );
         None
     }
 
     // Peeks past whitespace on the same line until the next token is found
     fn peek_next_token_on_same_line(&mut self) -> Option<Token> {
+        #[cfg(koto_verif)]
+        let verif_mark = verif::mark(&self.current_token);
         let mut peek_count = 0;
 
         while let Some(peeked) = self.peek_token_n(peek_count) {
             match peeked {
                 token if token.is_whitespace() => {}
+                // logs the result of the arm below; the guard is always false
+                #[cfg(koto_verif)]
+                token if verif::log_same_line(
+                    &verif_mark,
+                    "peek_next_token_on_same_line",
+                    Some((token, None, peek_count)),
+                ) => {}
                 token => return Some(token),
             }
 
             peek_count += 1;
         }
 
+        #[cfg(koto_verif)]
+        verif::log_same_line(&verif_mark, "peek_next_token_on_same_line", None);
         None
     }
 
     // Peeks past whitespace on the same line until the next token is found
     fn peek_next_token_on_same_line_with_span(&mut self) -> Option<(Token, Span)> {
+        #[cfg(koto_verif)]
+        let verif_mark = verif::mark(&self.current_token);
         let mut peek_count = 0;
 
         while let Some(peeked) = self.lexer.peek(peek_count) {
             match peeked.token {
                 token if token.is_whitespace() => {}
+                // logs the result of the arm below; the guard is always false
+                #[cfg(koto_verif)]
+                token if verif::log_same_line(
+                    &verif_mark,
+                    "peek_next_token_on_same_line_with_span",
+                    Some((token, Some(peeked.span), peek_count)),
+                ) => {}
                 token => return Some((token, peeked.span)),
             }
 
             peek_count += 1;
         }
 
+        #[cfg(koto_verif)]
+        verif::log_same_line(&verif_mark, "peek_next_token_on_same_line_with_span", None);
         None
     }
 
     // Consumes whitespace on the same line up until the next token
     fn consume_until_next_token_on_same_line(&mut self) {
+        #[cfg(koto_verif)]
+        let verif_mark = verif::mark(&self.current_token);
         while let Some(peeked) = self.peek_token() {
             match peeked {
                 token if token.is_whitespace() => {}
+                // logs the exit through the arm below; the guard is always false
+                #[cfg(koto_verif)]
+                token if verif::log_same_line(
+                    &verif_mark,
+                    "consume_until_next_token_on_same_line",
+                    Some((token, None, 0)),
+                ) => {}
                 _ => return,
             }
 
             self.consume_token();
         }
+        #[cfg(koto_verif)]
+        verif::log_same_line(&verif_mark, "consume_until_next_token_on_same_line", None);
     }
 
     // Consumes whitespace on the same line and returns the next token
     fn consume_next_token_on_same_line(&mut self) -> Option<Token> {
+        #[cfg(koto_verif)]
+        let verif_mark = verif::mark(&self.current_token);
         while let Some(peeked) = self.peek_token() {
             match peeked {
                 token if token.is_whitespace() => {}
+                // logs the token that the arm below is about to consume and return (the
+                // `consume_token` entry that follows in the trace confirms it); the guard is
+                // always false
+                #[cfg(koto_verif)]
+                token if verif::log_same_line(
+                    &verif_mark,
+                    "consume_next_token_on_same_line",
+                    Some((token, None, 0)),
+                ) => {}
                 _ => return self.consume_token(),
             }
 
             self.consume_token();
         }
 
+        #[cfg(koto_verif)]
+        verif::log_same_line(&verif_mark, "consume_next_token_on_same_line", None);
         None
     }
 
@@ -4269,5 +4378,210 @@ impl<'a> BindingContext<'a> {
         }
 
         Ok(())
+    }
+}
+
+/// Verification hook H2 (compiled only with `--cfg koto_verif`): a thread-local log of every call
+/// of the parser's token-cursor primitives (the "Lexer getters" section of `Parser`).
+///
+/// Each entry is one line of space-separated fields:
+/// `name p=<tokens consumed before the call> q=<tokens consumed when the entry was written>
+/// cur=<current token before the call> args=<arguments> res=<result>`,
+/// tokens as `Kind:start_byte-end_byte:line.col-line.col:indent`, expression contexts as
+/// `L<allow_linebreaks>M<allow_map_block>S<allow_space_separated_call>B<inside_braces>X<export_map_entries>:<expected_indentation>`.
+/// Logging is off unless switched on with [`verif::enable_cursor_trace`]; nothing here changes
+/// what the parser does.
+#[cfg(koto_verif)]
+pub mod verif {
+    use super::{ExpressionContext, Indentation};
+    use koto_lexer::{LexedToken, Span, Token};
+    use std::cell::{Cell, RefCell};
+
+    thread_local! {
+        static ENABLED: Cell<bool> = const { Cell::new(false) };
+        static CONSUMED: Cell<usize> = const { Cell::new(0) };
+        static TRACE: RefCell<Vec<String>> = const { RefCell::new(Vec::new()) };
+    }
+
+    /// Switches the cursor trace of the current thread on or off (off by default);
+    /// clears the trace and resets the consumed-token counter.
+    pub fn enable_cursor_trace(on: bool) {
+        ENABLED.with(|e| e.set(on));
+        CONSUMED.with(|c| c.set(0));
+        TRACE.with(|t| t.borrow_mut().clear());
+    }
+
+    /// Drains the cursor trace recorded on the current thread and resets the consumed-token
+    /// counter (call it after each parse).
+    pub fn take_cursor_trace() -> Vec<String> {
+        CONSUMED.with(|c| c.set(0));
+        TRACE.with(|t| std::mem::take(&mut *t.borrow_mut()))
+    }
+
+    // The cursor at the entry of a primitive: tokens consumed so far, and the current token
+    pub(super) struct Mark {
+        consumed: usize,
+        current: String,
+    }
+
+    pub(super) fn mark(current: &LexedToken) -> Option<Mark> {
+        if ENABLED.with(|e| e.get()) {
+            Some(Mark {
+                consumed: CONSUMED.with(|c| c.get()),
+                current: token(current),
+            })
+        } else {
+            None
+        }
+    }
+
+    fn kind(token: Token) -> String {
+        format!("{token:?}").replace(' ', "")
+    }
+
+    fn span(span: &Span) -> String {
+        format!(
+            "{}.{}-{}.{}",
+            span.start.line, span.start.column, span.end.line, span.end.column
+        )
+    }
+
+    fn token(token: &LexedToken) -> String {
+        format!(
+            "{}:{}-{}:{}:{}",
+            kind(token.token),
+            token.source_bytes.start,
+            token.source_bytes.end,
+            span(&token.span),
+            token.indent
+        )
+    }
+
+    fn context(context: &ExpressionContext) -> String {
+        let expected = match context.expected_indentation {
+            Indentation::Flexible => "F".to_string(),
+            Indentation::Equal(n) => format!("E{n}"),
+            Indentation::Greater => "G".to_string(),
+            Indentation::GreaterThan(n) => format!("GT{n}"),
+            Indentation::GreaterOrEqual(n) => format!("GE{n}"),
+        };
+        format!(
+            "L{}M{}S{}B{}X{}:{}",
+            context.allow_linebreaks as u8,
+            context.allow_map_block as u8,
+            context.allow_space_separated_call as u8,
+            context.inside_braces as u8,
+            context.export_map_entries as u8,
+            expected
+        )
+    }
+
+    pub(super) fn log(mark: &Option<Mark>, name: &str, args: &str, result: &str) {
+        if let Some(mark) = mark {
+            let line = format!(
+                "{name} p={} q={} cur={} args={args} res={result}",
+                mark.consumed,
+                CONSUMED.with(|c| c.get()),
+                mark.current
+            );
+            TRACE.with(|t| t.borrow_mut().push(line));
+        }
+    }
+
+    // A successful `consume_token`: `current` is the new current token
+    pub(super) fn consumed(mark: &Option<Mark>, current: &LexedToken) {
+        if mark.is_some() {
+            CONSUMED.with(|c| c.set(c.get() + 1));
+            log(mark, "consume_token", "", &format!("Some({})", token(current)));
+        }
+    }
+
+    pub(super) fn log_peek_n(mark: &Mark, n: usize, peeked: Option<Token>) {
+        let result = match peeked {
+            Some(peeked) => format!("Some({})", kind(peeked)),
+            None => "None".to_string(),
+        };
+        log_marked(mark, "peek_token_n", &n.to_string(), &result);
+    }
+
+    pub(super) fn log_getter(current: &LexedToken, name: &str, value: usize) {
+        if let Some(mark) = mark(current) {
+            log_marked(&mark, name, "", &value.to_string());
+        }
+    }
+
+    pub(super) fn log_span(mark: &Mark, name: &str, value: Option<Span>) {
+        let result = match value {
+            Some(value) => format!("Some({})", span(&value)),
+            None => "None".to_string(),
+        };
+        log_marked(mark, name, "", &result);
+    }
+
+    fn log_marked(mark: &Mark, name: &str, args: &str, result: &str) {
+        let line = format!(
+            "{name} p={} q={} cur={} args={args} res={result}",
+            mark.consumed,
+            CONSUMED.with(|c| c.get()),
+            mark.current
+        );
+        TRACE.with(|t| t.borrow_mut().push(line));
+    }
+
+    pub(super) fn log_peek_with_context(
+        mark: &Option<Mark>,
+        expression_context: &ExpressionContext,
+        result: Option<(&LexedToken, usize)>,
+    ) {
+        if mark.is_some() {
+            let result = match result {
+                Some((info, peek_count)) => format!("Some({},{peek_count})", token(info)),
+                None => "None".to_string(),
+            };
+            log(
+                mark,
+                "peek_token_with_context",
+                &context(expression_context),
+                &result,
+            );
+        }
+    }
+
+    // `result`: the current token after the call, and the returned context
+    pub(super) fn log_consume_with_context(
+        mark: &Option<Mark>,
+        name: &str,
+        expression_context: &ExpressionContext,
+        result: Option<(&LexedToken, &ExpressionContext)>,
+    ) {
+        if mark.is_some() {
+            let result = match result {
+                Some((current, new_context)) => {
+                    format!("Some({},{})", token(current), context(new_context))
+                }
+                None => "None".to_string(),
+            };
+            log(mark, name, &context(expression_context), &result);
+        }
+    }
+
+    // `result`: the token found, its span (if the primitive returns one), and the peek count.
+    // Always returns false (it is called from a match guard).
+    pub(super) fn log_same_line(
+        mark: &Option<Mark>,
+        name: &str,
+        result: Option<(Token, Option<Span>, usize)>,
+    ) -> bool {
+        if mark.is_some() {
+            let result = match result {
+                Some((found, Some(found_span), n)) => {
+                    format!("Some({},{},{n})", kind(found), span(&found_span))
+                }
+                Some((found, None, n)) => format!("Some({},{n})", kind(found)),
+                None => "None".to_string(),
+            };
+            log(mark, name, "", &result);
+        }
+        false
     }
 }
